@@ -183,6 +183,15 @@ macro_rules! boxed_width_ops {
     };
 }
 
+/// exponentiation with a secret exponent at one more width (the window lookup is specialised per width by the optimiser)
+macro_rules! pow_width {
+    ($v:ident, $N:literal, $tag:literal) => {
+        $v.push(op!(concat!("monty", $tag, ".pow(secret exponent, public modulus)"), true, true, |i| { let (a, b) = (un::<$N>(&i.wa, &i.wb, 0), un::<$N>(&i.wb, &i.wa, 5)); let params = MontyParams::new_vartime(pubmod::<$N>());
+            let x = MontyForm::from_montgomery(a.shr_vartime(1), params);
+            foldw(x.pow_bounded_exp(&b, 12).as_montgomery()) }));
+    };
+}
+
 fn registry() -> Vec<Op> {
     let mut v = vec![
         // --- arithmetic
@@ -410,6 +419,7 @@ fn registry() -> Vec<Op> {
         op!("boxedmonty.invert", true, true, |i| { let p = BoxedMontyParams::new_vartime(oddbm(i)); let x = BoxedMontyForm::new(i.ba.clone(), p.clone()); { let _ = &p; foldc(x.invert().is_some()) } }),
     ];
     width_ops!(v, 1, "64"); width_ops!(v, 2, "128"); width_ops!(v, 3, "192"); width_ops!(v, 6, "384"); width_ops!(v, 8, "512"); width_ops!(v, 16, "1024w");
+    pow_width!(v, 4, "256"); pow_width!(v, 5, "320"); pow_width!(v, 7, "448"); pow_width!(v, 9, "576"); pow_width!(v, 10, "640"); pow_width!(v, 12, "768"); pow_width!(v, 32, "2048");
     boxed_width_ops!(v, 1, "64"); boxed_width_ops!(v, 2, "128"); boxed_width_ops!(v, 3, "192"); boxed_width_ops!(v, 6, "384"); boxed_width_ops!(v, 8, "512"); boxed_width_ops!(v, 17, "1088");
     v
 }
